@@ -13,6 +13,10 @@ CHECKS = {
    text="Explicit-state breadth-first search on the real coverage class: from the empty set, add/remove of every interval (incl. zero length) of an N-address universe until no new representation appears, at four bases (low, straddling 2^32, straddling 2^63, ending at 2^64-2). In every state the representation invariant (sorted, disjoint, non-adjacent, non-empty runs) and the denoted bitmap are checked, so the number of states must be exactly 2^N; every state answers all interval queries and every ordered pair of states goes through union, difference, intersection, containment, overlap and equality against the bitmap. The Zwerg words are then run on all sets and all ordered pairs of a smaller universe built in three different ways. The class is a small state machine over interval lists, which BFS to a fixpoint covers completely for the universe size.",
    note="Bitmap model; N=8/10 (class) and 5/7 (engine) addresses; zero-length is_covered/is_overlap and find_holes are unreachable from Zwerg and not judged.",
    tech="explicit-state BFS to fixpoint over the real class with bitmap reference model; exhaustive pairs through the engine"),
+ "C01": dict(cat="model_checking", ref="DESIGN.md §2.2, C01",
+   text="Stateless exhaustive exploration of the real engine: every Z_3 transformer program up to 4 nodes (5 in the thorough tier) over 7 atoms, 14 unary, 6 binary and 1 ternary constructor (closures, ALT, OR, captures, assertions, binders, let, blocks, format strings with one and two splices, if) plus every constructor chain of depth 3 (4), each run on every single input and behind every small stream of inputs. Two oracles on every execution: the union law evaluated on the implementation alone (results of `G T` = multiset union of T on each element of G), and agreement with a reference interpreter written from doc/syntax.rst, ordered wherever the documentation fixes the order. Per-input state going stale is a property of (program shape x input history), which this enumeration covers completely up to the bound.",
+   note="Reference interpreter lib/zwmodel.py is trusted to implement the documentation; orders left open by the documentation are compared as multisets; programs above the size bound (outside the chain family) are not explored; 5-node programs run on the non-sanitized engine build.",
+   tech="bounded exhaustive enumeration of programs x inputs on the implementation; metamorphic union law + reference-model comparison"),
 }
 NOT_YET = "check under construction in this session; not claimed until it has run to completion on the unchanged tree"
 
